@@ -1089,3 +1089,326 @@ fn c15_slice_lengths_sync() {
 fn c15_slice_lengths_unsync() {
   c15_slices::<unsync::Arena>();
 }
+
+// ============================ C04: any request size ==========================================
+// @h props=C04 tier=quick timeout=1500 role=anysize_bytes bounds=CAP=128,MAXN=2,n:any-u32
+#[kani::proof]
+#[kani::unwind(5)]
+fn c04_alloc_bytes_anysize_unsync_opt() {
+  step_alloc::<unsync::Arena, u8, 2, 3, 128>(cfg!(Optimistic, 1, any), Kind::Bytes);
+}
+// @h props=C04 tier=quick timeout=1800 role=anysize_bytes bounds=CAP=128,MAXN=2,n:any-u32,retries=1
+#[kani::proof]
+#[kani::unwind(5)]
+fn c04_alloc_bytes_anysize_sync_pess() {
+  step_alloc::<sync::Arena, u8, 2, 3, 128>(cfg!(Pessimistic, 1, any), Kind::Bytes);
+}
+// @h props=C04 tier=quick timeout=1800 role=anysize_aligned bounds=CAP=128,MAXN=1,extra:any-u32,T=u64
+#[kani::proof]
+#[kani::unwind(4)]
+fn c04_alloc_aligned_anysize_unsync_pess() {
+  step_alloc::<unsync::Arena, u64, 1, 2, 128>(cfg!(Pessimistic, 1, any), Kind::Aligned);
+}
+// @h props=C04 tier=quick timeout=1800 role=anysize_aligned bounds=CAP=128,MAXN=1,extra:any-u32,T=u32,retries=1
+#[kani::proof]
+#[kani::unwind(4)]
+fn c04_alloc_aligned_anysize_sync_opt() {
+  step_alloc::<sync::Arena, u32, 1, 2, 128>(cfg!(Optimistic, 1, any), Kind::Aligned);
+}
+// @h props=C04 tier=thorough timeout=1800 role=anysize_bytes bounds=CAP=128,list=None,n:any-u32
+#[kani::proof]
+#[kani::unwind(4)]
+fn c04_alloc_bytes_anysize_sync_none() {
+  step_alloc::<sync::Arena, u8, 1, 2, 128>(cfg!(None, 1, any), Kind::Bytes);
+}
+// @h props=C04 tier=thorough timeout=1800 role=anysize_bytes bounds=CAP=128,list=None,n:any-u32
+#[kani::proof]
+#[kani::unwind(4)]
+fn c04_alloc_bytes_anysize_unsync_none() {
+  step_alloc::<unsync::Arena, u8, 1, 2, 128>(cfg!(None, 1, any), Kind::Bytes);
+}
+// @h props=C04 tier=thorough timeout=2400 role=anysize_bytes bounds=CAP=128,MAXN=2,n:any-u32,retries=2
+#[kani::proof]
+#[kani::unwind(5)]
+fn c04_alloc_bytes_anysize_sync_opt_r2() {
+  step_alloc::<sync::Arena, u8, 2, 3, 128>(cfg!(Optimistic, 2, any), Kind::Bytes);
+}
+// @h props=C04 tier=thorough timeout=1800 role=anysize_bytes bounds=CAP=128,MAXN=2,n:any-u32
+#[kani::proof]
+#[kani::unwind(5)]
+fn c04_alloc_bytes_anysize_unsync_pess() {
+  step_alloc::<unsync::Arena, u8, 2, 3, 128>(cfg!(Pessimistic, 1, any), Kind::Bytes);
+}
+
+/// Read-only arena: every allocation call is refused with ReadOnly and changes nothing.
+pub(crate) fn step_ro_alloc<A: Allocator, T, const CAP: usize>(kind: Kind) {
+  let opts = Options::new().with_capacity(CAP as u32).with_unify(true).with_freelist(Freelist::Optimistic);
+  let arena: A = crate::memory::vk_mem::make_read_only::<A>(opts);
+  assert!(arena.read_only(), "C16: read_only() reports the mode");
+  let p = arena.raw_ptr();
+  let x: u32 = kani::any();
+  kani::assume(x < CAP as u32);
+  let before = unsafe { rd8(p, x) };
+  let (a0, d0, r0) = (arena.allocated(), arena.discarded(), arena.remaining());
+  let n: u32 = kani::any();
+  let g = do_alloc::<A, T>(&arena, kind, n);
+  assert!(!g.ok && g.ro_err, "C04: allocation on a read-only arena fails with ReadOnly");
+  assert!(arena.allocated() == a0 && arena.discarded() == d0 && arena.remaining() == r0, "C04: refused allocation changes nothing");
+  assert!(unsafe { rd8(p, x) } == before, "C09: a read-only arena never changes its memory");
+  core::mem::forget(arena);
+}
+// @h props=C04,C09 tier=quick timeout=600 bounds=CAP=64,n:any-u32
+#[kani::proof]
+#[kani::unwind(3)]
+fn c04_ro_alloc_bytes_sync() {
+  step_ro_alloc::<sync::Arena, u8, 64>(Kind::Bytes);
+}
+// @h props=C04,C09 tier=quick timeout=600 bounds=CAP=64,extra:any-u32,T=u64
+#[kani::proof]
+#[kani::unwind(3)]
+fn c04_ro_alloc_aligned_unsync() {
+  step_ro_alloc::<unsync::Arena, u64, 64>(Kind::Aligned);
+}
+// @h props=C04,C09 tier=quick timeout=600 bounds=CAP=64,T=u32
+#[kani::proof]
+#[kani::unwind(3)]
+fn c04_ro_alloc_typed_unsync() {
+  step_ro_alloc::<unsync::Arena, u32, 64>(Kind::Typed);
+}
+// @h props=C04,C09 tier=thorough timeout=600 bounds=CAP=64,T=u64
+#[kani::proof]
+#[kani::unwind(3)]
+fn c04_ro_alloc_typed_sync() {
+  step_ro_alloc::<sync::Arena, u64, 64>(Kind::Typed);
+}
+
+// ============================ C03: typed / aligned allocations ===============================
+#[repr(align(16))]
+pub(crate) struct A16([u8; 16]);
+pub(crate) type P12 = (u64, u32);
+
+macro_rules! c03_step {
+  ($name:ident, $arena:ty, $ty:ty, $fl:ident, $kind:ident, $n:expr, $m:expr, $unwind:expr) => {
+    #[kani::proof]
+    #[kani::unwind($unwind)]
+    fn $name() {
+      step_alloc::<$arena, $ty, $n, $m, 128>(cfg!($fl, 1), Kind::$kind);
+    }
+  };
+}
+// @h props=C03,C01,C10 quick=C03 timeout=1800 bounds=CAP=128,MAXN=2,T=u32
+c03_step!(inv_alloc_typed_u32_unsync_opt, unsync::Arena, u32, Optimistic, Typed, 2, 3, 5);
+// @h props=C03,C01,C10 quick=C03 timeout=1800 bounds=CAP=128,MAXN=2,T=u64,retries=1
+c03_step!(inv_alloc_typed_u64_sync_pess, sync::Arena, u64, Pessimistic, Typed, 2, 3, 5);
+// @h props=C03,C01,C10 quick=C03 timeout=1800 bounds=CAP=128,MAXN=2,T=align16x16
+c03_step!(inv_alloc_typed_a16_unsync_pess, unsync::Arena, A16, Pessimistic, Typed, 2, 3, 5);
+// @h props=C03,C01,C10 quick=C03 timeout=1800 bounds=CAP=128,MAXN=2,T=u64,n<=256
+c03_step!(inv_alloc_aligned_u64_unsync_opt, unsync::Arena, u64, Optimistic, Aligned, 2, 3, 5);
+// @h props=C03 quick=C03 role=zst_aligned timeout=1800 bounds=CAP=128,MAXN=1,T=[u64;0],n<=256
+c03_step!(inv_alloc_aligned_zst8_unsync_opt, unsync::Arena, [u64; 0], Optimistic, Aligned, 1, 2, 4);
+// @h props=C03,C01 quick=C03 timeout=900 bounds=CAP=128,MAXN=1,T=()
+c03_step!(inv_alloc_typed_unit_sync_opt, sync::Arena, (), Optimistic, Typed, 1, 2, 4);
+// thorough: rest of the layout list
+// @h props=C03,C01,C10 tier=thorough timeout=1800 bounds=CAP=128,MAXN=2,T=u8
+c03_step!(inv_alloc_typed_u8_sync_opt, sync::Arena, u8, Optimistic, Typed, 2, 3, 5);
+// @h props=C03,C01,C10 tier=thorough timeout=1800 bounds=CAP=128,MAXN=2,T=u16
+c03_step!(inv_alloc_typed_u16_unsync_pess, unsync::Arena, u16, Pessimistic, Typed, 2, 3, 5);
+// @h props=C03,C01,C10 tier=thorough timeout=1800 bounds=CAP=128,MAXN=2,T=[u8;3]
+c03_step!(inv_alloc_typed_b3_unsync_opt, unsync::Arena, [u8; 3], Optimistic, Typed, 2, 3, 5);
+// @h props=C03,C01,C10 tier=thorough timeout=1800 bounds=CAP=128,MAXN=2,T=(u64,u32)
+c03_step!(inv_alloc_typed_p12_sync_opt, sync::Arena, P12, Optimistic, Typed, 2, 3, 5);
+// @h props=C03,C01,C10 tier=thorough timeout=1800 bounds=CAP=128,MAXN=2,T=[u64;5]
+c03_step!(inv_alloc_typed_q5_unsync_opt, unsync::Arena, [u64; 5], Optimistic, Typed, 2, 3, 5);
+// @h props=C03,C01,C10 tier=thorough timeout=1800 bounds=CAP=128,MAXN=2,T=align16x16
+c03_step!(inv_alloc_typed_a16_sync_opt, sync::Arena, A16, Optimistic, Typed, 2, 3, 5);
+// @h props=C03,C01,C10 tier=thorough timeout=1800 bounds=CAP=128,MAXN=2,T=u32,n<=256
+c03_step!(inv_alloc_aligned_u32_sync_pess, sync::Arena, u32, Pessimistic, Aligned, 2, 3, 5);
+// @h props=C03,C01,C10 tier=thorough timeout=1800 bounds=CAP=128,MAXN=2,T=align16x16,n<=256
+c03_step!(inv_alloc_aligned_a16_unsync_opt, unsync::Arena, A16, Optimistic, Aligned, 2, 3, 5);
+// @h props=C03,C01,C10 tier=thorough timeout=1800 bounds=CAP=128,MAXN=2,T=u16,n<=256
+c03_step!(inv_alloc_aligned_u16_sync_opt, sync::Arena, u16, Optimistic, Aligned, 2, 3, 5);
+// @h props=C03,C01,C10 tier=thorough timeout=1800 bounds=CAP=128,list=None,T=u64
+c03_step!(inv_alloc_typed_u64_unsync_none, unsync::Arena, u64, None, Typed, 1, 2, 4);
+// @h props=C03,C01,C10 tier=thorough timeout=1800 bounds=CAP=128,list=None,T=u32,n<=256
+c03_step!(inv_alloc_aligned_u32_sync_none, sync::Arena, u32, None, Aligned, 1, 2, 4);
+
+// ============================ C10/C20: list maintenance ops ==================================
+pub(crate) fn step_discard_freelist<A: Allocator, const N: usize, const M: usize, const CAP: usize>(cfg: Cfg) {
+  let l = lay(cfg.res, CAP as u32);
+  let arena: A = mk::<A>(cfg.fl, cfg.retries, &l, 20);
+  let pre = Pre::<N>::any(&l, cfg.fl);
+  let lv = Live::any(&l, &pre);
+  let data: [u8; CAP] = kani::any();
+  unsafe { poke::<A, N, CAP>(&arena, &l, &pre, &data) };
+  assert!(arena.allocated() == pre.allocated as usize, "ENC: allocated readback");
+  let p = arena.raw_ptr();
+  let w_before = if lv.ll > 0 { unsafe { rd8(p, lv.w) } } else { 0 };
+  let r_before = unsafe { rd8(p, lv.r) };
+  let ret = arena.discard_freelist();
+  let post: Post<M> = unsafe { read_post::<A, M>(&arena, &l, CAP as u32) };
+  match ret {
+    Ok(v) => {
+      assert!(v == pre.total(), "C20: discard_freelist returns the sum of the data sizes of the segments on the list");
+      assert!(post.discarded == pre.discarded + pre.total(), "C20: discard_freelist raises discarded() by exactly that amount");
+    }
+    Err(_) => assert!(false, "C20: discard_freelist succeeds on a writable arena"),
+  }
+  assert!(post.n == 0 && post.terminated && post.sentinel_size == MAX, "C20: discard_freelist leaves the list empty");
+  assert!(post.allocated == pre.allocated && post.min_seg == pre.min_seg, "C20: discard_freelist touches neither cursor nor minimum segment size");
+  assert!(unsafe { rd8(p, lv.r) } == r_before, "C16: reserved prefix / identification bytes never written");
+  if lv.ll > 0 {
+    assert!(unsafe { rd8(p, lv.w) } == w_before, "C01: bytes of a live allocation unchanged by discard_freelist");
+  }
+  // afterwards requests can only be served from fresh space
+  let n: u32 = kani::any();
+  kani::assume(n >= 1 && n <= 2 * CAP as u32);
+  let g = do_alloc::<A, u8>(&arena, Kind::Bytes, n);
+  if pre.allocated as u64 + n as u64 > CAP as u64 {
+    assert!(!g.ok && g.space_err, "C20: after discard_freelist a request larger than the fresh space fails");
+  } else {
+    assert!(g.ok && g.bo == pre.allocated, "C20: after discard_freelist requests are served from fresh space");
+  }
+  kani::cover!(pre.k == N && pre.total() > 0);
+  core::mem::forget(arena);
+}
+// @h props=C20,C10,C01 quick=C20 timeout=1500 bounds=CAP=128,MAXN=2
+#[kani::proof]
+#[kani::unwind(5)]
+fn c20_discard_freelist_unsync_opt() {
+  step_discard_freelist::<unsync::Arena, 2, 3, 128>(cfg!(Optimistic, 1));
+}
+// @h props=C20,C10,C01 quick=C20 timeout=1800 bounds=CAP=128,MAXN=2,retries=1
+#[kani::proof]
+#[kani::unwind(5)]
+fn c20_discard_freelist_sync_pess() {
+  step_discard_freelist::<sync::Arena, 2, 3, 128>(cfg!(Pessimistic, 1));
+}
+// @h props=C20,C10 tier=thorough timeout=1800 bounds=CAP=128,MAXN=3
+#[kani::proof]
+#[kani::unwind(6)]
+fn c20_discard_freelist_unsync_pess_n3() {
+  step_discard_freelist::<unsync::Arena, 3, 4, 128>(cfg!(Pessimistic, 1));
+}
+// @h props=C20,C10 tier=thorough timeout=2400 bounds=CAP=128,MAXN=3,retries=1
+#[kani::proof]
+#[kani::unwind(6)]
+fn c20_discard_freelist_sync_opt_n3() {
+  step_discard_freelist::<sync::Arena, 3, 4, 128>(cfg!(Optimistic, 1));
+}
+
+pub(crate) fn step_knobs<A: Allocator, const N: usize, const M: usize, const CAP: usize>(cfg: Cfg) {
+  let l = lay(cfg.res, CAP as u32);
+  let arena: A = mk::<A>(cfg.fl, cfg.retries, &l, 20);
+  let pre = Pre::<N>::any(&l, cfg.fl);
+  let data: [u8; CAP] = kani::any();
+  unsafe { poke::<A, N, CAP>(&arena, &l, &pre, &data) };
+  let p = arena.raw_ptr();
+  let y: u32 = kani::any();
+  kani::assume(y < CAP as u32);
+  let before = unsafe { rd8(p, y) };
+  let which: bool = kani::any();
+  if which {
+    let d: u32 = kani::any();
+    kani::assume(d as u64 + pre.discarded as u64 <= u32::MAX as u64);
+    arena.increase_discarded(d);
+    assert!(arena.discarded() == pre.discarded + d, "C20: increase_discarded(n) raises discarded() by n");
+    assert!(arena.minimum_segment_size() == pre.min_seg, "C20: increase_discarded changes nothing else");
+    kani::assume(y < l.hdr + 16 || y >= l.hdr + 20);
+  } else {
+    let m: u32 = kani::any();
+    arena.set_minimum_segment_size(m);
+    assert!(arena.minimum_segment_size() == m, "C16: minimum_segment_size() reports the value in force");
+    assert!(arena.discarded() == pre.discarded, "C20: set_minimum_segment_size leaves discarded() alone");
+    kani::assume(y < l.hdr + 12 || y >= l.hdr + 16);
+  }
+  assert!(arena.allocated() == pre.allocated as usize, "C10: knob changes leave the cursor alone");
+  assert!(unsafe { rd8(p, y) } == before, "C10: knob changes leave the list and every other byte alone");
+  core::mem::forget(arena);
+}
+// @h props=C20,C10,C16 quick=C20 timeout=600 bounds=CAP=128,MAXN=2,d:any-u32,m:any-u32
+#[kani::proof]
+#[kani::unwind(5)]
+fn c20_knobs_unsync() {
+  step_knobs::<unsync::Arena, 2, 3, 128>(cfg!(Optimistic, 1));
+}
+// @h props=C20,C10,C16 quick=C20 timeout=600 bounds=CAP=128,MAXN=2,d:any-u32,m:any-u32
+#[kani::proof]
+#[kani::unwind(5)]
+fn c20_knobs_sync() {
+  step_knobs::<sync::Arena, 2, 3, 128>(cfg!(Pessimistic, 1));
+}
+
+// ============================ C19: checksum tiling ===========================================
+pub(crate) struct RecCks {
+  base: usize,
+  next: usize,
+  total: u64,
+  chunks: u32,
+  poisoned: bool,
+}
+pub(crate) struct RecBuild;
+impl dbutils::checksum::BuildChecksumer for RecBuild {
+  type Checksumer = RecCks;
+  fn build_checksumer(&self) -> RecCks {
+    RecCks { base: 0, next: 0, total: 0, chunks: 0, poisoned: false }
+  }
+  fn checksum_one(&self, src: &[u8]) -> u64 {
+    src.len() as u64
+  }
+}
+impl dbutils::checksum::Checksumer for RecCks {
+  fn update(&mut self, buf: &[u8]) {
+    let p = buf.as_ptr() as usize;
+    if self.chunks == 0 {
+      self.base = p;
+    } else if p != self.next {
+      self.poisoned = true;
+    }
+    self.next = p + buf.len();
+    self.total += buf.len() as u64;
+    self.chunks += 1;
+  }
+  fn reset(&mut self) {}
+  fn digest(&self) -> u64 {
+    // digest encodes: contiguous-in-order flag, first byte address and total length
+    if self.poisoned {
+      u64::MAX
+    } else {
+      ((self.base as u64 & 0xffff_ffff) << 32) | self.total
+    }
+  }
+}
+
+pub(crate) fn c19_tiling<A: Allocator>() {
+  const CAP: u32 = 3 * 4096 + 64;
+  let reserved: u32 = kani::any();
+  kani::assume(reserved <= 64);
+  let arena: A = Options::new().with_capacity(CAP).with_reserved(reserved).with_freelist(Freelist::None).alloc::<A>().unwrap();
+  assert!(arena.page_size() == 4096, "ENC: page size 4096 in the alloc build");
+  let target: u32 = kani::any();
+  unsafe { arena.rewind(ArenaPosition::Start(target)) };
+  let allocated = arena.allocated();
+  let d = arena.checksum(&RecBuild);
+  let expect_len = (allocated - reserved as usize) as u64;
+  assert!(d != u64::MAX, "C19: checksum feeds the chunks in order, each exactly once, without gaps");
+  assert!(d & 0xffff_ffff == expect_len, "C19: checksum covers exactly allocated() - reserved bytes");
+  if expect_len > 0 {
+    assert!((d >> 32) == ((arena.raw_ptr() as usize + reserved as usize) as u64 & 0xffff_ffff), "C19: checksum starts right after the reserved prefix");
+  }
+  kani::cover!(expect_len == 2 * 4096);
+  kani::cover!(expect_len == 2 * 4096 + 1);
+  kani::cover!(expect_len == 3 * 4096 - 1);
+  core::mem::forget(arena);
+}
+// @h props=C19 tier=quick timeout=1500 bounds=CAP=3pages+64,allocated:any,reserved<=64,page=4096
+#[kani::proof]
+#[kani::unwind(6)]
+fn c19_checksum_tiling_unsync() {
+  c19_tiling::<unsync::Arena>();
+}
+// @h props=C19 tier=quick timeout=1500 bounds=CAP=3pages+64,allocated:any,reserved<=64,page=4096
+#[kani::proof]
+#[kani::unwind(6)]
+fn c19_checksum_tiling_sync() {
+  c19_tiling::<sync::Arena>();
+}
